@@ -30,6 +30,8 @@ Inductive oval :=
 | OTuple (l : list oval) | OObj (l : list (list Z * oval))
 | OMark (ms : marks) (v : oval).
 
+Definition is_mark (v : val) : bool := match v with VMark _ _ => true | _ => false end.
+
 Fixpoint erase (m : Z) (v : val) : oval :=
   match v with
   | VStr s => OStr s | VNum n => ONum n | VBool b => OBool b
@@ -66,6 +68,23 @@ Definition leq_vars (m : Z) (a b : option (list (list Z * val))) : Prop :=
 Definition low_eq_frame (m : Z) (f1 f2 : frame) : Prop :=
   leq_vars m (fvars f1) (fvars f2) /\ ffuncs f1 = ffuncs f2.
 Definition low_eq (m : Z) (c1 c2 : ctx) : Prop := Forall2 (low_eq_frame m) c1 c2.
+
+(* ---- well-formed values ---------------------------------------------------------------------
+   go-cty never nests a mark directly under a mark (Value.Mark / WithMarks merge the sets), and
+   neither does the evaluator model (with_marks merges).  [wfb v]: no [VMark _ (VMark _ _)]
+   anywhere in v.  The operations look through exactly one layer of marks (unmark) or through all
+   of them (type_of), so their behaviour on doubly marked values is an artefact of the model. *)
+Fixpoint wfb (v : val) : bool :=
+  match v with
+  | VMark _ x => negb (is_mark x) && wfb x
+  | VList _ l | VSet _ l | VTuple l => forallb wfb l
+  | VMap _ l | VObj l => forallb (fun p => wfb (snd p)) l
+  | _ => true
+  end.
+Definition wf (v : val) : Prop := wfb v = true.
+Definition wf_opt (a : option val) : Prop := match a with Some v => wf v | None => True end.
+Definition wf_ctx (c : ctx) : Prop :=
+  forall fr vs k v, In fr c -> fvars fr = Some vs -> In (k, v) vs -> wf v.
 
 (* ---- induction principle for val (nested lists) --------------------------------------- *)
 Section ValInd.
@@ -189,7 +208,7 @@ Proof.
     + apply stars_leq; rewrite is_star_with_marks; [|rewrite <- (leq_is_star _ _ _ H)]; rewrite Es; reflexivity.
     + pose proof (leq_is_star _ _ _ H) as Es2. rewrite Es in Es2. unfold leq in *.
       destruct v1, v2; cbn [erase is_star] in *; try rewrite Es in H; try rewrite <- Es2 in H;
-        try discriminate H; cbn [with_marks erase];
+        try discriminate H; cbn [with_marks erase is_mark];
         try (destruct (mark_mem m (x :: r)); [reflexivity|]; cbn [erase]; rewrite H; reflexivity).
       injection H as -> H. rewrite !mark_mem_union.
       destruct (mark_mem m (x :: r) || mark_mem m m1); [reflexivity|]. rewrite H. reflexivity.
